@@ -26,6 +26,41 @@ def compare(ctx, label, d, keep_files=False):
                     'cell_properties / base_properties (names, wire-size keys, resolved types) vs the extracted model (tools/defsview)')
 
 
+_model_views = {}
+def model_view_cached(d):
+    if d not in _model_views: _model_views[d] = defsview.model_view(d)
+    return _model_views[d]
+
+
+def player_definitions(ctx):
+    from replay_unpack.clients import wows
+    base = os.path.join(common.REPO, 'replay_unpack', 'clients', 'wows', 'versions')
+    have = set(os.listdir(base))
+    four = sorted(v for v in have if v.count('_') == 3 and os.path.isdir(os.path.join(base, v)))
+    seq = []
+    for v in four:
+        rel = v.rsplit('_', 1)[0]
+        if rel in have: seq += [v.split('_'), rel.split('_') + ['1234567'], v.split('_'), rel.split('_') + ['7']]
+    seq = seq + seq[::-1]
+    if ctx.tier != 'quick':
+        seq += [v.split('_') + ['99'] for v in sorted(have) if v.count('_') == 2 and os.path.isdir(os.path.join(base, v))]
+    bad = None
+    for ver in seq:
+        want = '_'.join(ver[:4]) if '_'.join(ver[:4]) in have else '_'.join(ver[:3])
+        d = os.path.join(base, want)
+        try: a = [l.rstrip(' ') for l in defsview.lib_view_of(wows.ReplayPlayer(list(ver))._definitions)]
+        except Exception as e: a = ['LIB-ERROR ' + type(e).__name__]
+        b = model_view_cached(d)
+        ctx.case(('player-defs', '.'.join(ver))); ctx.count('sets:player-resolved')
+        fd = recordings.first_diff(a, b)
+        if fd is not None and bad is None:
+            bad = dict(kind='index-map-of-player', version=','.join(ver), expected_definitions=os.path.relpath(d, common.REPO), index=fd[0],
+                       implementation=fd[1][:300], expected=fd[2][:300], sequence=[','.join(x) for x in seq[:seq.index(ver) + 1]] if ver in seq else None,
+                       how='in ONE process construct wows.ReplayPlayer(version) for the listed versions in this order; the index maps of player._definitions '
+                           'must be those of the bundled directory the version selects (four-component match, else three-component)')
+    return bad
+
+
 def run(ctx):
     ctx.rule = ('exhaustively all bundled definition sets + generated sets (random interface DAGs, name clashes between interfaces and entities, '
                 'size ties, every flag, <Arg>/<Args>, header 1/2/absent/garbage/empty, alias chains, alias_ext overrides, flat and wrapped '
@@ -57,6 +92,10 @@ def run(ctx):
             if r and bad is None: bad = r
         finally:
             shutil.rmtree(d, ignore_errors=True)
+    # the definitions a PLAYER resolves for a version (what the ids of a real parse are looked up in): sibling builds of one release in one
+    # process, in both orders - a definitions object remembered per release, per directory prefix or per process would serve the wrong set
+    pbad = player_definitions(ctx)
+    if pbad and bad is None: bad = pbad
     ctx.traces_validated += len(dirs) + n
     ctx.obligation('correspondence: library index maps = extracted model on %d bundled + %d generated definition sets' % (len(dirs), n), bad is None,
                    '' if bad is None else json.dumps({k: v for k, v in bad.items() if k != 'defs'}))
@@ -66,6 +105,16 @@ def run(ctx):
 
 def replay(ctx, path):
     obj = json.load(open(path))
+    if obj.get('kind') == 'index-map-of-player':
+        from replay_unpack.clients import wows
+        base = os.path.join(common.REPO, 'replay_unpack', 'clients', 'wows', 'versions'); rc = 0
+        for v in obj['sequence']:
+            ver = v.split(','); want = '_'.join(ver[:4]) if os.path.isdir(os.path.join(base, '_'.join(ver[:4]))) else '_'.join(ver[:3])
+            a = [l.rstrip(' ') for l in defsview.lib_view_of(wows.ReplayPlayer(ver)._definitions)]; b = defsview.model_view(os.path.join(base, want))
+            fd = recordings.first_diff(a, b)
+            print(v, 'agree with ' + want if fd is None else 'DIFFERS from %s at %d: %s | %s' % (want, fd[0], fd[1][:200], fd[2][:200]))
+            if fd is not None: rc = 1
+        return rc
     if obj.get('defs'):
         d = worldcheck.write_defs_dir(obj['defs'])
         try:
